@@ -16,7 +16,8 @@ from vlib import enc_str as E, enc_list, dec_list
 from props.c04 import t_cond, t_prim, SAFE_VALUES, split_result
 
 THEOREMS = ["C05_tables", "C05_fn_end", "C05_sim", "C05_sites_unique", "C05_sim_ordered", "C05_F6_refuted_return",
-            "C05_F6_refuted_recursion"]
+            "C05_F6_refuted_recursion", "C05_sim_cond", "C05_cond_em_scope", "C05_sim_cond_ideal",
+            "C05_cond_em_witness"]
 
 
 # ---- trees -> prefix notation ---------------------------------------------------------------------
@@ -335,6 +336,14 @@ def directed(T):
                         ("i", "if", ("F", "f1", [("L", a1), ("L", a2)]), [("c", ("E", "G", []))], [("el", "else", [("c", ("E", "H", []))])], "end"),
                         ("k", "r0", "f1", [("L", a2), ("L", a1)]), ("c", ("E", "fin", ["r0", "a", "b", "1", "2"]))]
                 cases.append(("directed", [fp, fg, ft], main, ["cw", "TTF"]))
+    # an error under a condition-position call ends the nested loop and becomes the error of the condition's line
+    for pos in (0, 1):
+        body = [("c", ("E", "in", ["1"])), ("c", ("E", "after", [])), ("r", "return", ("L", "yes"))]
+        body.insert(1 + pos, ("c", ("P", "nope", "x")))
+        cases.append(("directed", [("fn", False, "f0", body, "end")],
+                      [("c", ("S", "a", "A0")), ("i", "if", ("F", "f0", [("L", "v")]), [("c", ("E", "T", []))],
+                                                   [("el", "else", [("c", ("E", "E", []))])], "end"),
+                       ("c", ("E", "fin", ["a"]))], []))
     # the open corner itself (not compared): under a condition-position call, r = h where h falls off
     cases.append(("directed", [("fn", False, "f0", [("c", ("E", "h", []))], "end"),
                                ("fn", False, "f1", [("k", "r0", "f0", []), ("r", "return", ("V", "r0"))], "end")],
@@ -470,7 +479,7 @@ def run(ck):
                         f6["witness"] = {"script": script_lines, "init": init, "spec": spec, "implementation": io}
             else:
                 cls = "in domain of C05_sim (calls follow the definition order)" if ordered else \
-                      "in domain, calls in condition position (correspondence only)" if condcalls else \
+                      "in domain of C05_sim_cond (calls in condition position)" if condcalls else \
                       "in domain of C05_sim (call-graph cycle: recursion)"
                 nontriv.add((text, tuple(init)))
                 if spec != model:
@@ -487,7 +496,7 @@ def run(ck):
                 if len(ck.violations) < 5:
                     ck.violation({"kind": bad, "case_kind": kind, "script": script_lines, "initial_variables": init,
                                   "known_f6": kf6, "spec(prog_run)": spec, "model(flat machine)": model, "implementation": io_full,
-                                  "theorems": ["C05_sim"], "seed": ck.seed,
+                                  "theorems": ["C05_sim_cond"] if condcalls else ["C05_sim"], "seed": ck.seed,
                                   "replay_cmd": "printf '%s\\n' | .cache/cargo-target/release/c05" % impl_lines[pos].replace("\t", "\\t")})
             elif len(samples) < 3 and kind == "random" and cls and cls.startswith("in domain") and acc["call"] >= 3 and acc["return"] >= 2:
                 samples.append({"script": script_lines, "init": init})
@@ -516,7 +525,7 @@ def run(ck):
     })
     ck.report_broken(found)
     ck.assumptions += [
-        "conditions and straight-line commands are the small language of Flow.v; calls in condition position are not in this check's domain yet",
+        "conditions and straight-line commands are the small language of Flow.v (plus user-function calls in condition position, C05_sim_cond)",
         "function names are not names of other commands; at most nine arguments (one-digit argument variables)",
         "line_context_name is constantly empty (no script-implemented commands involved) and omitted from the model",
         "the spec follows the implementation in the corner the property leaves open: after a <scope> call that ends without a value the "
